@@ -238,8 +238,13 @@ inline EdgeOut rhumb_edge_between(const Env& env, Ctx& c, const RV& A, const RV&
   catch (const std::runtime_error& ex) { o.st = E_FAIL; o.why = ex.what(); ++c.events["ref: rhumb reference threw"]; return o; }
   bool pA = std::fabs(A.lat) == 90, pB = std::fabs(B.lat) == 90;
   o.pole = pA || pB; o.tie = tie;
-  // signature of a known defect (Rhumb exact=true, prolate: both latitudes within 1e-8 deg of the equator and different)
-  o.rheq = env.be == B_RH_EXACT && env.f < 0 && std::max(std::fabs(A.lat), std::fabs(B.lat)) < 1e-8 && A.lat != B.lat;
+  // regime of a known defect (Rhumb exact=true on a prolate ellipsoid, C09 'DE cancellation'): for latitudes on the same side of the equator
+  // the rectifying divided difference loses relative accuracy eps/|beta_min|; the edge is in the regime when that predicted error
+  // eps * length / |beta_min| is not negligible (> 1/4) against the tolerance the edge is judged with (always when a latitude is 0)
+  auto in_rheq = [&env](double la1, double la2, LD len, LD tol_edge) {
+    if (!(env.be == B_RH_EXACT && env.f < 0) || la1 == la2 || la1 * la2 < 0) return false;
+    double bmin = std::min(std::fabs(la1), std::fabs(la2)) * (M_PI / 180);
+    return bmin == 0 || (double)len * std::numeric_limits<double>::epsilon() / bmin > 0.25 * env.K * (double)tol_edge; };
   if (pA && pB && A.lat != B.lat) { o.st = E_AMBIG; o.why = "pole-to-opposite-pole"; return o; }
   if ((tie || r.tie) && !(pA || pB) ) { o.st = E_AMBIG; o.why = "opposite meridians: east/west rhumb lines equally long"; ++c.events["ref: edges excluded as nearly antipodal / not unique"]; return o; }
   // near-tie: |lon12| within the resolution at which AngDiff could legitimately round to +-180
@@ -247,6 +252,7 @@ inline EdgeOut rhumb_edge_between(const Env& env, Ctx& c, const RV& A, const RV&
   o.len = r.s12; o.I = -r.S12 / env.E.c2; o.dlam = r.lon12 * D; o.certified = true;
   o.lenscale = std::max<LD>(1, o.len / env.half_circ);
   o.extra_tol = 8 * std::numeric_limits<double>::epsilon() * std::max<LD>(o.len, (LD)env.a * fabsl(o.dlam));
+  o.rheq = in_rheq(A.lat, B.lat, o.len, (LD)env.tol_pos * o.lenscale + o.extra_tol);
   if (!(std::isfinite((double)o.I) && std::isfinite((double)o.len))) { o.st = E_FAIL; o.why = "rhumb reference non-finite"; return o; }
   o.st = E_OK; return o;
 }
@@ -261,8 +267,12 @@ inline EdgeOut rhumb_edge_direct(const Env& env, Ctx& c, const RV& A, double azi
   if (crossed) *crossed = polar;
   if (polar) { o.st = E_AMBIG; o.why = "rhumb course reaches or leaves a pole (longitude indeterminate, documented)"; return o; }
   o.I = -r.S12 / env.E.c2; o.dlam = r.lon12 * D; o.len = fabsl((LD)s);
-  o.rheq = env.be == B_RH_EXACT && env.f < 0 && ((std::fabs(A.lat) < 1e-8 && A.lat != 0) || (Bstored && std::fabs(Bstored->lat) < 1e-8 && Bstored->lat != A.lat) || fabsl(r.lat2) < 1e-8);
   o.extra_tol = 8 * std::numeric_limits<double>::epsilon() * std::max<LD>(o.len, (LD)env.a * fabsl(o.dlam));
+  o.lenscale = std::max<LD>(1, o.len / env.half_circ);
+  { // same regime predicate as for inverse edges, with the reference end latitude (and the stored one): also east-west courses (lat2 == lat1 up to the defect)
+    double la2 = (double)r.lat2; LD tol_edge = (LD)env.tol_pos * o.lenscale + o.extra_tol;
+    bool same = A.lat * la2 >= 0; double bmin = std::min(std::fabs(A.lat), std::fabs(la2)) * (M_PI / 180);
+    o.rheq = env.be == B_RH_EXACT && env.f < 0 && same && s != 0 && (bmin == 0 ? A.lat != 0 || la2 != 0 : (double)o.len * std::numeric_limits<double>::epsilon() / bmin > 0.25 * env.K * (double)tol_edge); }
   if (Bstored) {
     LD X1[3], X2[3]; ref::to_xyz<LD>(env.E, (LD)Bstored->lat, (LD)Bstored->lon, X1); ref::to_xyz<LD>(env.E, r.lat2, r.lon2, X2);
     if (pos_err) *pos_err = ref::dist3(X1, X2);
